@@ -63,7 +63,7 @@ type Property struct {
 	// Expand lists, for fault enumeration, the forced choices derived from a base run.
 	Expand func(sc *Scenario, h *History, tier string) []map[string]int
 	// Components for the evidence file.
-	Real, Stub []string
+	Real, Stub  []string
 	Assumptions []string
 	// QuickRuns/ThoroughRuns are seeded-run budgets (thorough is also time-boxed).
 	QuickRuns, ThoroughRuns int
